@@ -1,5 +1,7 @@
-// Command c17 runs ziputil.UnzipDir / ZipDir / ZipFile and dock's
-// writeTarToDir (built with -tags verif) on generated archives inside a
+// Command c17 runs ziputil.UnzipDir / ZipDir / ZipFile / OpenInTemp,
+// tarutil.TarZipFile and dock's tar extraction (writeTarToDir and
+// writeFirstFileAs through the verif shim, and the exported Cont.CopyOut /
+// Cont.CopyOutFile over a scripted daemon) on generated archives inside a
 // sandbox and prints what it observed, one JSON line per case: the archive
 // entries as Go's readers report them, the file system of the whole sandbox
 // before and after, and the projected result.
@@ -9,6 +11,45 @@
 // in a fresh directory /cN of that root and the whole root is snapshotted.
 // Without the privilege to chroot the child works under <scratch>/root with
 // a lexical guard that skips cases whose targets could leave it.
+//
+// USAGE-PATTERN TABLE (round 3 audit; anchors ziputil/{unzip,zip,temp}.go,
+// dock/{write_tar,cont}.go, tarutil/zip_file.go).  "shapes" = what a
+// user-supplied value may legally be or return; "streams" = where exercised.
+//
+//	API / state                      shapes and usage patterns                                  streams
+//	ziputil.UnzipDir(dir,r,clear)    dir: 12 spellings (absolute, trailing slash, ./, .., //,   corpus names types archives benign
+//	                                   relative, "", ".", ../x/.) x clear on/off                 clear (every spelling x clear=true x absent /
+//	                                 destination: absent, empty, populated, a regular file,       populated / regular-file destination)
+//	                                   holding symbolic links (observed only)                    dest-links
+//	                                 r: zip.Reader over memory; over a tempfile via OpenInTemp  intemp
+//	                                 entry names: 40-name hostile corpus, random segments        names archives
+//	                                 entry kinds: file, dir, symlink/fifo/device/socket modes    types
+//	                                 contents: 0..40 B; 32767/32768/32769/65537/100000 B         big
+//	                                 umask 0/022/027/077; all 07777 mode bits                    archives roundtrip
+//	                                 calls in sequence on one destination (same archive twice,   seq
+//	                                   other archive over it, after a refusal, after the
+//	                                   destination or a sub-directory was removed in between)
+//	                                 state: none in memory (per call); on disk: the destination
+//	                                 concurrency: no shared state in the package; not exercised
+//	ziputil.ZipDir(dir,w)            dir: absolute, trailing slash, relative, ".", "", //, ..    roundtrip zarg
+//	                                 tree: random, <=4 levels, all mode bits, big file           roundtrip big
+//	                                 w: bytes.Buffer; a writer failing early / only at Close     ziperr
+//	                                 missing directory; unreadable sub-directory (euid 65534)    ziperr zarg
+//	ziputil.ZipFile(file,w)          file: absolute, relative, ./, //, ..; big; missing;        zipfile zarg big ziperr
+//	                                   failing writer (early / at Close)
+//	ziputil.OpenInTemp(r,tmp)        r: <=1000 B per Read, data with EOF, failing half-way,      intemp
+//	                                   truncated; tmp: fresh, or used before for a longer archive
+//	dock.writeTarToDir (shim)        as UnzipDir (no clear); tar link/device/fifo entries;       corpus names types archives benign seq big
+//	                                   stream cut at 8 offsets (lost connection)                 cut
+//	dock.writeFirstFileAs (shim)     caller's file: new, existing, a directory, missing parent,  firstfile seq big
+//	                                   ""; archives without a regular entry; twice on one file
+//	dock.createFile                  shared helper: reached through both entry points above
+//	dock.Cont.CopyOut / CopyOutFile  the exported callers, over HTTP from a scripted daemon       copyout
+//	                                   (abstract unix socket): 200 with a tar stream, 404
+//	tarutil.TarZipFile(tw,p,dir)     dir: "", ctx, ctx/sub, /abs, ctx/../.., "."; entry names,   tarzip big
+//	                                   kinds, modes, contents compared; then extracted by the    tzround
+//	                                   tar extractor (ZipDir -> TarZipFile -> writeTarToDir)
+//	filepath.Join / Rel / Dir        every string pair over {a,.,/} up to length 3 (4), Dir 6 (8) fjoin rel dir
 package main
 
 import (
@@ -18,16 +59,20 @@ import (
 	"flag"
 	"fmt"
 	"io"
+	"net"
+	"net/http"
 	"os"
 	"path/filepath"
 	"sort"
 	"strconv"
 	"strings"
+	"sync"
 	"syscall"
 
 	"shanhu.io/g/dock"
 	"shanhu.io/g/errcode"
 	"shanhu.io/g/tarutil"
+	"shanhu.io/g/tempfile"
 	"shanhu.io/g/ziputil"
 	"verifharness/hx"
 )
@@ -65,13 +110,24 @@ type Case struct {
 	Tree    []Node `json:"tree,omitempty"`    // roundtrip: the tree to zip (relative paths, root first)
 
 	// observed
-	Seen    []Ent  `json:"seen,omitempty"` // entries as the reader reports them
-	Before  []Node `json:"before,omitempty"`
-	After   []Node `json:"after,omitempty"`
-	Res     string `json:"res"` // ok | refused | oserr | unsupported | other:<text> | skipped
-	Err     string `json:"err,omitempty"`
-	Out     string `json:"out"`
-	Outs    []string `json:"outs,omitempty"` // tarzip: names in the produced tar stream
+	Seen    []Ent    `json:"seen,omitempty"` // entries as the reader reports them
+	Before  []Node   `json:"before,omitempty"`
+	After   []Node   `json:"after,omitempty"`
+	Res     string   `json:"res"` // ok | refused | oserr | unsupported | other:<text> | skipped
+	Err     string   `json:"err,omitempty"`
+	Out     string   `json:"out"`
+	Outs    []string `json:"outs,omitempty"`    // tarzip: names in the produced tar stream; zipdirerr: names in the produced zip
+	OutEnts []Ent    `json:"outents,omitempty"` // tarzip: the produced tar stream, entry by entry
+	// round 3: usage patterns
+	Via     string `json:"via,omitempty"`    // unzip: temp | temp2 (through ziputil.OpenInTemp, fresh / reused temp file); untar, firstfile: copyout | copyout404 (through dock.Cont.CopyOut / CopyOutFile and a scripted daemon)
+	SeqOf   int    `json:"seqof,omitempty"`  // >0: this case continues in the sandbox of case SeqOf-1 (a sequence of calls on one directory)
+	Keep    bool   `json:"keep,omitempty"`   // the sandbox stays for the next case of the sequence
+	Pre     string `json:"pre,omitempty"`    // what the harness does before the call: rmdest | rmsub:<rel>
+	Expect  []Node `json:"expect,omitempty"` // when set: the exact content of the destination after this call (relative paths)
+	ZArg    string `json:"zarg,omitempty"`   // roundtrip / zipfile: the path string handed to ZipDir / ZipFile ("%S" = sandbox)
+	ZCwd    string `json:"zcwd,omitempty"`   // working directory for that call
+	Cut     int    `json:"cut,omitempty"`    // untar: the stream is cut after this many bytes (stored +1)
+	ZSeen   []Ent  `json:"zseen,omitempty"`  // tzround: the zip entries TarZipFile was given (Seen = the tar entries it produced)
 	Crash   string `json:"crash,omitempty"`
 	Sandbox string `json:"sandbox,omitempty"`
 	Mode    string `json:"mode,omitempty"` // chroot | guard
@@ -307,6 +363,7 @@ func genCases(seed uint64, n int, thorough bool) []Case {
 			{N: "a.txt", K: "file", M: 0o644, C: "a"}, {N: "d/", K: "dir", M: 0o755}, {N: "d/b.txt", K: "file", M: 0o600, C: "b"},
 			{N: "../up.txt", K: "file", M: 0o644, C: "up"}, {N: "/abs.txt", K: "file", M: 0o644, C: "abs"}, {N: "x//y/./z", K: "file", M: 0o644, C: "z"}}})
 	}
+	round3Cases(add, func() int { return len(cs) })
 	// generated archives.
 	for i := 0; i < n; i++ {
 		op := "unzip"
@@ -431,6 +488,161 @@ func genCases(seed uint64, n int, thorough bool) []Case {
 		add(Case{Stream: "fjoin", Op: "fjoin", A: a, B: b})
 	}
 	return cs
+}
+
+// ---- round 3: usage patterns the earlier streams did not reach ----------------
+//
+// Everything here is fixed (no PRNG): sequences of calls on one directory,
+// the other entry points (OpenInTemp, Cont.CopyOut / CopyOutFile, TarZipFile
+// followed by the tar extractor), argument spellings of ZipDir / ZipFile,
+// clear=true for every destination spelling, contents on both sides of the
+// 32 KiB copy buffer, failing writers and readers, walk errors.
+
+// bigText: n printable bytes that do not compress well (so that archives of
+// them are larger than the copy buffers too).
+func bigText(n int, seed uint32) string {
+	const alpha = "abcdefghijklmnopqrstuvwxyzABCDEFGHIJKLMNOPQRSTUVWXYZ0123456789+-"
+	b := make([]byte, n)
+	x := seed*2654435761 + 12345
+	for i := range b {
+		x ^= x << 13
+		x ^= x >> 17
+		x ^= x << 5
+		b[i] = alpha[x&63]
+	}
+	return string(b)
+}
+
+var destIsFile = []Node{{P: "dest", M: 0o644, C: "i am a file"}}
+
+func round3Cases(add func(Case), next func() int) {
+	benign := []Ent{{N: "a.txt", K: "file", M: 0o644, C: "A"}, {N: "b/", K: "dir", M: 0o750}, {N: "b/c.txt", K: "file", M: 0o600, C: "C"}}
+	benignTree := []Node{{P: "a.txt", M: 0o644, C: "A"}, {P: "b", D: true, M: 0o750}, {P: "b/c.txt", M: 0o600, C: "C"}}
+	other := []Ent{{N: "a.txt", K: "file", M: 0o755, C: "A2"}, {N: "b", K: "file", M: 0o644, C: "b is a file here"}, {N: "z/y/x", K: "file", M: 0o640, C: "deep"}}
+	hostile := []Ent{{N: "ok.txt", K: "file", M: 0o644, C: "fine"}, {N: "../evil.txt", K: "file", M: 0o644, C: "evil"}, {N: "late.txt", K: "file", M: 0o644, C: "never"}}
+
+	// sequences of calls on one destination
+	type step struct {
+		op     string
+		clear  bool
+		pre    string
+		es     []Ent
+		expect []Node
+	}
+	seq := func(setup []Node, umask int, steps []step) {
+		first := next()
+		for i, st := range steps {
+			c := Case{Stream: "seq", Op: st.op, Dest: "%S/dest", Cwd: "/", Umask: umask, Clear: st.clear, Pre: st.pre,
+				Entries: st.es, Expect: st.expect, Keep: i < len(steps)-1}
+			if st.op == "firstfile" {
+				c.Dest = "%S/dest/out.bin"
+			}
+			if i == 0 {
+				c.Setup = setup
+			} else {
+				c.SeqOf = first + 1
+			}
+			add(c)
+		}
+	}
+	for _, op := range []string{"unzip", "untar"} {
+		cl := op == "unzip"
+		// the same archive twice, another one over it, the first again (cleared when the extractor can)
+		seq(setups[0], 0o22, []step{{op: op, es: benign, expect: benignTree}, {op: op, es: benign, expect: benignTree},
+			{op: op, es: other}, {op: op, clear: cl, es: benign}})
+		// refused part-way, then a good archive
+		seq(setups[1], 0o22, []step{{op: op, es: hostile}, {op: op, clear: cl, es: benign}, {op: op, es: hostile}})
+		// the destination disappears between two calls (anything remembered about it is stale)
+		seq(setups[0], 0o22, []step{{op: op, es: benign, expect: benignTree}, {op: op, pre: "rmdest", es: benign, expect: benignTree},
+			{op: op, pre: "rmsub:b", es: benign, expect: benignTree}})
+		seq(setups[2], 0o77, []step{{op: op, es: other}, {op: op, pre: "rmdest", es: other}, {op: op, pre: "rmsub:z/y", es: other}})
+	}
+	seq(setups[1], 0o22, []step{
+		{op: "firstfile", es: []Ent{{N: "x", K: "file", M: 0o640, C: "first"}}},
+		{op: "firstfile", es: []Ent{{N: "y", K: "file", M: 0o600, C: "second, shorter mode"}}},
+		{op: "firstfile", es: []Ent{{N: "d/", K: "dir", M: 0o755}}},
+		{op: "firstfile", pre: "rmsub:out.bin", es: []Ent{{N: "z", K: "file", M: 0o604, C: "third"}}}})
+
+	// clear=true for every spelling of the destination, over an absent, a populated and a non-directory destination
+	for _, df := range destForms {
+		for si, su := range [][]Node{setups[0], setups[2], destIsFile} {
+			if df.needDest && si != 1 {
+				continue
+			}
+			for _, es := range [][]Ent{benign, hostile} {
+				add(Case{Stream: "clear", Op: "unzip", Dest: df.dest, Cwd: df.cwd, Umask: 0o22, Clear: true, Setup: su, Entries: es})
+			}
+		}
+	}
+	for _, op := range []string{"unzip", "untar"} {
+		for _, d := range []string{"%S/dest", "%S/dest/", "dest"} {
+			add(Case{Stream: "clear", Op: op, Dest: d, Cwd: "%S", Umask: 0o22, Setup: destIsFile, Entries: benign})
+		}
+	}
+
+	// contents on both sides of the copy buffers
+	for i, n := range []int{32767, 32768, 32769, 65537, 100000} {
+		body := bigText(n, uint32(i+1))
+		es := []Ent{{N: "small.txt", K: "file", M: 0o644, C: "s"}, {N: "big/blob.bin", K: "file", M: 0o640, C: body}, {N: "after.txt", K: "file", M: 0o600, C: "t"}}
+		add(Case{Stream: "big", Op: "unzip", Dest: "%S/dest", Cwd: "/", Umask: 0o22, Setup: setups[1], Entries: es})
+		add(Case{Stream: "big", Op: "untar", Dest: "%S/dest", Cwd: "/", Umask: 0o22, Setup: setups[1], Entries: es})
+		add(Case{Stream: "big", Op: "firstfile", Dest: "%S/dest/out.bin", Cwd: "/", Umask: 0o22, Setup: setups[1], Entries: es[1:]})
+		add(Case{Stream: "big", Op: "roundtrip", Dest: "%S/dest", Cwd: "/", Umask: 0o22, Clear: true, Setup: setups[1],
+			Tree: []Node{{P: "", D: true, M: 0o755}, {P: "blob.bin", M: 0o640, C: body}, {P: "z", M: 0o600, C: "after"}}})
+		add(Case{Stream: "big", Op: "zipfile", Dest: "%S/dest", Cwd: "/", Umask: 0o22, Setup: setups[1], Tree: []Node{{P: "blob.bin", M: 0o604, C: body}}})
+		add(Case{Stream: "big", Op: "tarzip", A: "ctx", Cwd: "/", Setup: setups[1], Entries: es})
+	}
+
+	// the zip reader obtained through OpenInTemp (fresh temp file, and one used before for a longer archive)
+	for _, via := range []string{"temp", "temp2"} {
+		add(Case{Stream: "intemp", Op: "unzip", Via: via, Dest: "%S/dest", Cwd: "/", Umask: 0o22, Setup: setups[1], Entries: benign, Expect: benignTree})
+		add(Case{Stream: "intemp", Op: "unzip", Via: via, Dest: "%S/dest", Cwd: "/", Umask: 0o22, Setup: setups[2], Clear: true, Entries: hostile})
+		add(Case{Stream: "intemp", Op: "unzip", Via: via, Dest: "dest", Cwd: "%S", Umask: 0o22, Setup: setups[0],
+			Entries: []Ent{{N: "blob", K: "file", M: 0o644, C: bigText(70000, 9)}, {N: "t", K: "file", M: 0o600, C: "tail"}},
+			Expect:  []Node{{P: "blob", M: 0o644, C: bigText(70000, 9)}, {P: "t", M: 0o600, C: "tail"}}})
+		add(Case{Stream: "intemp", Op: "unzip", Via: via, Dest: "%S/dest", Cwd: "/", Umask: 0o22, Setup: setups[1], Entries: []Ent{}})
+	}
+	add(Case{Stream: "intemp", Op: "unzip", Via: "tempfail", Dest: "%S/dest", Cwd: "/", Umask: 0o22, Setup: setups[1], Entries: benign})
+	add(Case{Stream: "intemp", Op: "unzip", Via: "tempcut", Dest: "%S/dest", Cwd: "/", Umask: 0o22, Setup: setups[1], Entries: benign})
+
+	// the exported entry points of dock: Cont.CopyOut / Cont.CopyOutFile over a scripted daemon
+	for _, es := range [][]Ent{benign, hostile, {{N: "../destx/evil.txt", K: "file", M: 0o644, C: "sibling-prefix"}},
+		{{N: "../newdir/", K: "dir", M: 0o755}}, {{N: "l", K: "other", T: "2", M: 0o777}, {N: "l/x", K: "file", M: 0o644, C: "through"}}} {
+		add(Case{Stream: "copyout", Op: "untar", Via: "copyout", Dest: "%S/dest", Cwd: "/", Umask: 0o22, Setup: setups[2], Entries: es})
+		add(Case{Stream: "copyout", Op: "untar", Via: "copyout", Dest: "dest", Cwd: "%S", Umask: 0o27, Setup: setups[0], Entries: es})
+		add(Case{Stream: "copyout", Op: "firstfile", Via: "copyout", Dest: "%S/dest/out.bin", Cwd: "/", Umask: 0o22, Setup: setups[2], Entries: es})
+	}
+	add(Case{Stream: "copyout", Op: "untar", Via: "copyout404", Dest: "%S/dest", Cwd: "/", Umask: 0o22, Setup: setups[2], Entries: benign})
+	add(Case{Stream: "copyout", Op: "firstfile", Via: "copyout404", Dest: "%S/dest/out.bin", Cwd: "/", Umask: 0o22, Setup: setups[2], Entries: benign})
+
+	// a tar stream that ends early (a lost connection): whatever was written stays inside
+	for _, cut := range []int{0, 100, 512, 600, 1024, 1536, 1700, 2048} {
+		add(Case{Stream: "cut", Op: "untar", Cut: cut + 1, Dest: "%S/dest", Cwd: "/", Umask: 0o22, Setup: setups[1], Entries: hostile})
+	}
+
+	// spellings of the argument of ZipDir and ZipFile
+	tree := []Node{{P: "", D: true, M: 0o755}, {P: "a", D: true, M: 0o750}, {P: "a/b", M: 0o600, C: "2"}, {P: "a-b", M: 0o644, C: "1"}, {P: "e", D: true, M: 0o711}}
+	for _, z := range [][2]string{{"%S/tree/", "/"}, {"tree", "%S"}, {".", "%S/tree"}, {"%S/work/../tree", "/"}, {"./tree/", "%S"}, {"%S//tree", "/"}, {"../tree", "%S/work"}, {"", "%S/tree"}} {
+		add(Case{Stream: "zarg", Op: "roundtrip", ZArg: z[0], ZCwd: z[1], Dest: "%S/dest", Cwd: "/", Umask: 0o22, Clear: true, Setup: setups[2], Tree: tree})
+	}
+	for _, z := range [][2]string{{"tree/f.bin", "%S"}, {"f.bin", "%S/tree"}, {"./f.bin", "%S/tree"}, {"%S/tree/./f.bin", "/"}, {"%S/tree//f.bin", "/"}, {"../tree/f.bin", "%S/work"}} {
+		add(Case{Stream: "zarg", Op: "zipfile", ZArg: z[0], ZCwd: z[1], Dest: "%S/dest", Cwd: "/", Umask: 0o22, Setup: setups[1], Tree: []Node{{P: "f.bin", M: 0o640, C: "single"}}})
+	}
+
+	// ZipDir -> TarZipFile -> the tar extractor: the tree arrives under dest/<dir>
+	for _, dir := range []string{"", "ctx", "ctx/sub", "."} {
+		for _, um := range []int{0, 0o22} {
+			add(Case{Stream: "tzround", Op: "tzround", A: dir, Dest: "%S/dest", Cwd: "/", Umask: um, Setup: setups[um/18], Tree: tree})
+		}
+	}
+	add(Case{Stream: "tarzip", Op: "tarzip", A: "ctx", Cwd: "/", Setup: setups[1], Entries: []Ent{
+		{N: "f1", K: "file", M: 0o600, C: "one"}, {N: "f2", K: "file", M: 0o755}, {N: "d/", K: "dir", M: 0o700}, {N: "f3", K: "file", M: 0o444, C: "ro"}, {N: "f4", K: "file", M: 0o6711, C: "s"}, {N: "d/e/", K: "dir", M: 0o1777}}})
+
+	// errors on the producing side: they must come back as errors
+	for _, k := range []string{"missing", "unreadable", "writer", "writerlate", "writerfile", "writerfilelate", "filemissing"} {
+		add(Case{Stream: "ziperr", Op: "ziperr", A: k, Cwd: "/", Setup: setups[1],
+			Tree: []Node{{P: "", D: true, M: 0o755}, {P: "a", M: 0o644, C: "a"}, {P: "locked", D: true, M: 0o755}, {P: "locked/secret", M: 0o644, C: "s"}, {P: "z", M: 0o644, C: bigText(5000, 3)}}})
+	}
 }
 
 func allStrings(alpha string, maxLen int) []string {
@@ -674,7 +886,11 @@ func runCase(c *Case, root string, chrooted bool) {
 		c.Out = filepath.Dir(c.A)
 		return
 	}
-	sbRel := "/c" + strconv.Itoa(c.I)
+	seqBase := c.I
+	if c.SeqOf > 0 {
+		seqBase = c.SeqOf - 1
+	}
+	sbRel := "/c" + strconv.Itoa(seqBase)
 	base := root // "" when chrooted
 	sb := base + sbRel
 	c.Sandbox = sb
@@ -686,10 +902,20 @@ func runCase(c *Case, root string, chrooted bool) {
 		c.Res = "skipped"
 		return
 	}
-	os.RemoveAll(sb)
+	if c.SeqOf > 0 {
+		if _, err := os.Lstat(sb); err != nil {
+			c.Res = "skipped" // the earlier part of the sequence died with its process
+			return
+		}
+	} else {
+		os.RemoveAll(sb)
+	}
 	defer func() {
 		os.Chdir(base + "/")
 		syscall.Umask(0o22)
+		if c.Keep && c.Crash == "" {
+			return
+		}
 		// remove the sandbox and anything an escaping entry left in the root
 		ents, _ := os.ReadDir(base + "/")
 		for _, e := range ents {
@@ -697,13 +923,21 @@ func runCase(c *Case, root string, chrooted bool) {
 		}
 	}()
 	syscall.Umask(0)
-	if err := os.MkdirAll(sb, 0o755); err != nil {
-		c.Res = "other:setup " + err.Error()
-		return
+	if c.SeqOf == 0 {
+		if err := os.MkdirAll(sb, 0o755); err != nil {
+			c.Res = "other:setup " + err.Error()
+			return
+		}
+		if err := writeTree(sb, append(append([]Node{}, common...), c.Setup...)); err != nil {
+			c.Res = "other:setup " + err.Error()
+			return
+		}
 	}
-	if err := writeTree(sb, append(append([]Node{}, common...), c.Setup...)); err != nil {
-		c.Res = "other:setup " + err.Error()
-		return
+	switch {
+	case c.Pre == "rmdest":
+		os.RemoveAll(sb + "/dest")
+	case strings.HasPrefix(c.Pre, "rmsub:"):
+		os.RemoveAll(sb + "/dest/" + strings.TrimPrefix(c.Pre, "rmsub:"))
 	}
 	if strings.HasSuffix(c.Cwd, "/deep") {
 		os.MkdirAll(subst(c.Cwd, sb), 0o755)
@@ -719,6 +953,17 @@ func runCase(c *Case, root string, chrooted bool) {
 	if c.Op == "firstfile" && dest != "" {
 		c.DestAbs = filepath.Clean(dest)
 	}
+	zarg := func(def string) (string, func()) {
+		if c.ZArg == "" && c.ZCwd == "" {
+			return def, func() {}
+		}
+		zc := subst(c.ZCwd, sb)
+		if !chrooted && zc == "/" {
+			zc = base + "/"
+		}
+		os.Chdir(zc)
+		return subst(c.ZArg, sb), func() { os.Chdir(base + "/") }
+	}
 
 	var archive []byte
 	var err error
@@ -727,7 +972,11 @@ func runCase(c *Case, root string, chrooted bool) {
 		archive, err = buildZip(c.Entries, sb)
 	case "untar":
 		archive, err = buildTar(c.Entries, sb)
-	case "roundtrip":
+		if err == nil && c.Cut > 0 && c.Cut-1 < len(archive) {
+			archive = archive[:c.Cut-1]
+		}
+	case "roundtrip", "tzround":
+		os.RemoveAll(sb + "/tree")
 		if err = writeTree(sb+"/tree", c.Tree); err == nil {
 			// directory modes last (children first), so that a restrictive parent does not matter
 			for i := len(c.Tree) - 1; i >= 0; i-- {
@@ -736,7 +985,9 @@ func runCase(c *Case, root string, chrooted bool) {
 				}
 			}
 			var buf bytes.Buffer
-			err = ziputil.ZipDir(sb+"/tree", &buf)
+			arg, back := zarg(sb + "/tree")
+			err = ziputil.ZipDir(arg, &buf)
+			back()
 			archive = buf.Bytes()
 		}
 	case "firstfile":
@@ -746,15 +997,20 @@ func runCase(c *Case, root string, chrooted bool) {
 	case "zipfile":
 		if err = writeTree(sb+"/tree", c.Tree); err == nil {
 			var buf bytes.Buffer
-			err = ziputil.ZipFile(sb+"/tree/"+c.Tree[0].P, &buf)
+			arg, back := zarg(sb + "/tree/" + c.Tree[0].P)
+			err = ziputil.ZipFile(arg, &buf)
+			back()
 			archive = buf.Bytes()
 		}
+	case "ziperr":
+		runZipErr(c, sb)
+		return
 	}
 	if err != nil {
 		c.Res = "other:build " + err.Error()
 		return
 	}
-	if c.Op == "tarzip" {
+	if c.Op == "tarzip" || c.Op == "tzround" {
 		zp := sb + "/in.zip"
 		if err := os.WriteFile(zp, archive, 0o644); err != nil {
 			c.Res = "other:setup " + err.Error()
@@ -764,22 +1020,41 @@ func runCase(c *Case, root string, chrooted bool) {
 		tw := tar.NewWriter(&buf)
 		err := tarutil.TarZipFile(tw, zp, c.A)
 		tw.Close()
-		c.Res, c.Err = projErr(err)
+		os.Remove(zp)
 		zr0, _ := zip.NewReader(bytes.NewReader(archive), int64(len(archive)))
-		c.Seen = seenZip(zr0)
-		for _, e := range seenTar(buf.Bytes()) {
-			c.Outs = append(c.Outs, e.N)
+		outs := seenTar(buf.Bytes())
+		if c.Op == "tarzip" {
+			c.Res, c.Err = projErr(err)
+			c.Seen = seenZip(zr0)
+			c.OutEnts = outs
+			for _, e := range outs {
+				c.Outs = append(c.Outs, e.N)
+			}
+			return
 		}
-		return
+		if err != nil {
+			c.Res = "other:build " + err.Error()
+			return
+		}
+		c.ZSeen = seenZip(zr0)
+		archive = buf.Bytes()
 	}
 	var zr *zip.Reader
-	if c.Op != "untar" && c.Op != "firstfile" {
+	if c.Op != "untar" && c.Op != "firstfile" && c.Op != "tzround" {
 		zr, err = zip.NewReader(bytes.NewReader(archive), int64(len(archive)))
 		if err != nil {
 			c.Res = "other:reader " + err.Error()
 			return
 		}
 		c.Seen = seenZip(zr)
+		if strings.HasPrefix(c.Via, "temp") {
+			var ierr error
+			zr, ierr = viaTemp(c.Via, archive, sb)
+			if ierr != nil || zr == nil {
+				c.Res, c.Err = "intemp-error", fmt.Sprint(ierr)
+				return
+			}
+		}
 	} else {
 		c.Seen = seenTar(archive)
 	}
@@ -790,18 +1065,195 @@ func runCase(c *Case, root string, chrooted bool) {
 	}
 	c.Before = snapshot(base)
 	syscall.Umask(c.Umask)
-	switch c.Op {
-	case "untar":
+	switch {
+	case strings.HasPrefix(c.Via, "copyout"):
+		status := 200
+		if c.Via == "copyout404" {
+			status = 404
+		}
+		cont := dock.NewCont(dock.NewUnixClient(fakeDaemon(archive, status)), "cid")
+		if c.Op == "firstfile" {
+			err = cont.CopyOutFile("/src/file", dest)
+		} else {
+			err = cont.CopyOut("/src", dest)
+		}
+		c.Out = fakeSeen()
+	case c.Op == "untar" || c.Op == "tzround":
 		err = dock.VerifWriteTarToDir(bytes.NewReader(archive), dest)
-	case "firstfile":
+	case c.Op == "firstfile":
 		err = dock.VerifWriteFirstFileAs(bytes.NewReader(archive), dest)
 	default:
 		err = ziputil.UnzipDir(dest, zr, c.Clear)
 	}
 	syscall.Umask(0)
 	c.Res, c.Err = projErr(err)
+	if c.Via == "copyout404" && err != nil {
+		c.Res = "daemon-error"
+	}
 	os.Chdir(base + "/")
 	c.After = snapshot(base)
+}
+
+// ---- round 3 helpers --------------------------------------------------------
+
+// slowReader hands out at most 1000 bytes per call, the last ones together
+// with io.EOF; failAt >= 0 makes it fail there instead.
+type slowReader struct {
+	d      []byte
+	failAt int
+	pos    int
+}
+
+func (s *slowReader) Read(p []byte) (int, error) {
+	if s.failAt >= 0 && s.pos >= s.failAt {
+		return 0, fmt.Errorf("injected reader failure")
+	}
+	n := len(s.d) - s.pos
+	if n > 1000 {
+		n = 1000
+	}
+	if n > len(p) {
+		n = len(p)
+	}
+	if s.failAt >= 0 && s.pos+n > s.failAt {
+		n = s.failAt - s.pos
+	}
+	copy(p, s.d[s.pos:s.pos+n])
+	s.pos += n
+	if s.pos == len(s.d) {
+		return n, io.EOF
+	}
+	return n, nil
+}
+
+// viaTemp obtains the zip reader through ziputil.OpenInTemp. The temp file is
+// unlinked at once (only its descriptor is used), so it is in no snapshot.
+func viaTemp(via string, archive []byte, sb string) (*zip.Reader, error) {
+	f, err := os.CreateTemp(sb+"/work", "intemp")
+	if err != nil {
+		return nil, err
+	}
+	os.Remove(f.Name())
+	tf := &tempfile.File{File: f, Name: f.Name(), SkipCleanUp: true}
+	switch via {
+	case "temp2":
+		// the temp file served a longer archive before
+		longer, err := buildZip([]Ent{{N: "earlier/one.txt", K: "file", M: 0o644, C: bigText(90000, 77)}, {N: "earlier/two.txt", K: "file", M: 0o600, C: "2"}}, sb)
+		if err != nil {
+			return nil, err
+		}
+		if _, err := ziputil.OpenInTemp(&slowReader{d: longer, failAt: -1}, tf); err != nil {
+			return nil, err
+		}
+	case "tempfail":
+		return ziputil.OpenInTemp(&slowReader{d: archive, failAt: len(archive) / 2}, tf)
+	case "tempcut":
+		return ziputil.OpenInTemp(&slowReader{d: archive[:len(archive)-30], failAt: -1}, tf)
+	}
+	return ziputil.OpenInTemp(&slowReader{d: archive, failAt: -1}, tf)
+}
+
+// A scripted docker daemon on an abstract unix socket (no file in any
+// sandbox): GET .../containers/<id>/archive answers with the tar stream of
+// the current case.
+var (
+	fakeOnce   sync.Once
+	fakeMu     sync.Mutex
+	fakeTar    []byte
+	fakeStatus int
+	fakeReq    string
+	fakeSock   string
+)
+
+func fakeDaemon(tarStream []byte, status int) string {
+	fakeOnce.Do(func() {
+		fakeSock = fmt.Sprintf("@verif-c17-%d", os.Getpid())
+		l, err := net.Listen("unix", fakeSock)
+		if err != nil {
+			panic(err)
+		}
+		go http.Serve(l, http.HandlerFunc(func(w http.ResponseWriter, r *http.Request) {
+			fakeMu.Lock()
+			defer fakeMu.Unlock()
+			fakeReq = r.Method + " " + r.URL.Path + "?" + r.URL.RawQuery
+			if fakeStatus != 200 {
+				http.Error(w, "No such container: cid", fakeStatus)
+				return
+			}
+			w.Header().Set("Content-Type", "application/x-tar")
+			w.Write(fakeTar)
+		}))
+	})
+	fakeMu.Lock()
+	fakeTar, fakeStatus, fakeReq = tarStream, status, ""
+	fakeMu.Unlock()
+	return fakeSock
+}
+
+func fakeSeen() string {
+	fakeMu.Lock()
+	defer fakeMu.Unlock()
+	return fakeReq
+}
+
+type failWriter struct{ left int }
+
+func (w *failWriter) Write(p []byte) (int, error) {
+	if len(p) > w.left {
+		n := w.left
+		w.left = 0
+		return n, fmt.Errorf("injected writer failure")
+	}
+	w.left -= len(p)
+	return len(p), nil
+}
+
+// runZipErr: errors on the producing side (ZipDir / ZipFile).
+func runZipErr(c *Case, sb string) {
+	if err := writeTree(sb+"/tree", c.Tree); err != nil {
+		c.Res = "other:setup " + err.Error()
+		return
+	}
+	var buf bytes.Buffer
+	var err error
+	switch c.A {
+	case "missing":
+		err = ziputil.ZipDir(sb+"/nope", &buf)
+	case "filemissing":
+		err = ziputil.ZipFile(sb+"/tree/nope", &buf)
+	case "writer": // the archive is larger than the zip writer's buffer: the failure shows while entries are written
+		err = ziputil.ZipDir(sb+"/tree", &failWriter{left: 100})
+	case "writerlate": // a small archive: the failure only shows when the archive is closed
+		os.Remove(sb + "/tree/z")
+		err = ziputil.ZipDir(sb+"/tree", &failWriter{left: 100})
+	case "writerfile":
+		err = ziputil.ZipFile(sb+"/tree/z", &failWriter{left: 100})
+	case "writerfilelate":
+		err = ziputil.ZipFile(sb+"/tree/a", &failWriter{left: 10})
+	case "unreadable":
+		os.Chmod(sb+"/tree/locked", 0)
+		if e := syscall.Seteuid(65534); e != nil {
+			c.Res = "skipped"
+			return
+		}
+		func() {
+			defer syscall.Seteuid(0)
+			err = ziputil.ZipDir(sb+"/tree", &buf)
+		}()
+		os.Chmod(sb+"/tree/locked", 0o755)
+	}
+	c.Res, c.Err = projErr(err)
+	if err != nil && !strings.HasPrefix(c.Res, "other:") && c.Res != "oserr" {
+		c.Res = "other:" + c.Res
+	}
+	if err != nil {
+		c.Res = "error"
+	}
+	if zr, e := zip.NewReader(bytes.NewReader(buf.Bytes()), int64(buf.Len())); e == nil {
+		for _, f := range zr.File {
+			c.Outs = append(c.Outs, f.Name)
+		}
+	}
 }
 
 func main() {
